@@ -17,7 +17,7 @@ CLAIMS = {
 
 CLAIMS.update({
     "C11": dict(
-        text="Static, exact: the full role x variant table of send(), the compile-time Sendable impl matrix (from the compiler's impl tables) and the per-handler status x need_store x offline_publish x QoS state table are extracted from MIR and compared cell by cell with the MQTT role/state tables; refusal paths' write sets are checked to be empty up to id release / undo. Whole statement, exhaustive over the finite matrix.",
+        text="Static, exact: the full role x variant table of send(), the compile-time Sendable impl matrix (from the compiler's impl tables), the blanket dispatch_send evaluated once per packet type with its type parameter bound, and the per-handler status x need_store x offline_publish x QoS state table are extracted from MIR and compared cell by cell with the MQTT role/state tables; refusal paths' write sets are checked to be empty up to id release / undo. Whole statement, exhaustive over the finite matrix.",
         note=TB + "Role atoms are TypeId comparisons / RoleType consts evaluated by the compiler.",
         technique="MIR abstract interpretation: exact decision-table extraction vs transcribed MQTT tables; trait impl table comparison",
         ref="3/C11"),
@@ -87,7 +87,7 @@ CLAIMS.update({
         technique="MIR abstract interpretation: sibling-agreement between restore path and send path",
         ref="3/C16"),
     "C18": dict(
-        text="Static, exact: each of the 14 property validators is evaluated exactly on concrete lists [v], [v, v], [v, UserProperty], [UserProperty, v] (and companions) of the 27 kinds - iteration followed element by element whatever the idiom (loops, all / any / filter().count() / try_for_each), giving the full placement and multiplicity table, compared cell by cell with MQTT 5.0 Table 2-4; forbidden values from the decision atoms of every numeric property's new()/parse(); validator shared and propagated by builder and parser. Whole statement.",
+        text="Static, exact: each of the 14 property validators is evaluated exactly on concrete lists [v], [v, v], [v, UserProperty], [UserProperty, v] (and companions) of the 27 kinds - iteration followed element by element whatever the idiom (loops, all / any / filter().count() / try_for_each), giving the full placement and multiplicity table, compared cell by cell with MQTT 5.0 Table 2-4; forbidden values by evaluating every numeric property's new() on concrete values and parse() on the concrete encodings of the same values (decision atoms of the paths as fallback); validators are discovered by signature and followed through helpers / function pointers, and on explored paths of both builder and parser the validator is applied and its verdict honoured. Whole statement.",
         note=TB + "14 property-carrying locations exist in the code (CONNECT, will, CONNACK, PUBLISH, PUBACK, PUBREC, PUBREL, PUBCOMP, SUBSCRIBE, SUBACK, UNSUBSCRIBE, UNSUBACK, DISCONNECT, AUTH): 27 x 14 cells.",
         technique="exact decision-table extraction from MIR vs transcribed specification table",
         ref="3/C18"),
@@ -105,7 +105,7 @@ CLAIMS.update({
         technique="MIR abstract interpretation: sibling implementations compared per guard valuation; abstract composition serialiser(build-result) with linear entailment",
         ref="3/C02"),
     "C03": dict(
-        text="Static, tables only (exact): every wire constant (packet types, fixed headers incl. reserved flag nibbles, 27 property ids, QoS/retain/payload-format, protocol levels, all reason-code enums both directions with names, MqttError wire range, MqttError->DisconnectReasonCode, success/failure partitions), property data types and Property::parse dispatch, the fixed header stored by each build/parse, PUBLISH flag masks, per-kind field order by type, and absence of non-big-endian conversions are compared with the transcribed OASIS tables. NOT decided: per-value encodings.",
+        text="Static, tables only (exact): every wire constant (packet types, fixed headers incl. reserved flag nibbles, 27 property ids, QoS/retain/payload-format, protocol levels, all reason-code enums both directions with names, MqttError wire range, MqttError->DisconnectReasonCode, success/failure partitions), property data types and Property::parse dispatch, the fixed header stored by each build/parse, PUBLISH flag masks (accessors by mask/shift; every method that assigns the header evaluated on all sixteen PUBLISH header bytes x argument values), per-kind field order by type, and absence of non-big-endian conversions are compared with the transcribed OASIS tables. NOT decided: per-value encodings.",
         note=TB + "Known finding F20 (v3.1.1 PUBACK/PUBREC/PUBREL/PUBCOMP carry an optional reason-code byte the 3.1.1 specification does not define) listed in known_findings.jsonl.",
         technique="exact table extraction (evaluated discriminants, field types, MIR match tables, serialiser order) vs specification tables",
         ref="3/C03"),
@@ -118,7 +118,7 @@ CLAIMS.update({
 
 CLAIMS.update({
     "C04": dict(
-        text="Static: panic-site ledger over every decoder function (all parse/decode* under mqtt::packet and everything they reach, ~100 functions): each MIR assert, unwrap, slice/array/str index, copy_from_slice and precondition met on some abstract path is discharged mechanically - constants and path constraints, linear entailment over path facts with the slicing algebra and callee post-conditions, type intervals, A-RL/A-MEM - or is one of 9 audited ledger entries; every decoder is proved to report consumed <= len(input); loops classified as terminating; UTF-8 typestate; every id-carrying parser rejects id 0 and PUBLISH rejects QoS 3; every property list a v5.0 parser accepts was validated by the builder's validator and is the one stored; leaf decoders accept only canonical encodings (consumed == encoded size of the returned value: found and fixed F22, non-minimal variable byte integers); an accepted packet's Remaining Length / property lengths equal what its serialiser emits (under A-LEAF for the per-property loops). NOT decided: re-parse equality, trailing bytes.",
+        text="Static: panic-site ledger over every decoder function (all parse/decode* under mqtt::packet and everything they reach, ~100 functions): each MIR assert, unwrap, slice/array/str index, copy_from_slice and precondition met on some abstract path is discharged mechanically - constants and path constraints, linear entailment over path facts with the slicing algebra and callee post-conditions, type intervals, A-RL/A-MEM - or is one of 16 audited ledger entries (eight of them representation invariants of MqttString / MqttBinary keyed by type and range shape, with who-may-construct / who-may-mutate checked: C04-R11); calls into std that panic on a violated precondition (split_at, Vec::remove, map indexing ...) are obligations too; every decoder is proved to report consumed <= len(input); loops classified as terminating; UTF-8 typestate; every id-carrying parser rejects id 0 and PUBLISH rejects QoS 3; every property list a v5.0 parser accepts was validated by the builder's validator and is the one stored; leaf decoders accept only canonical encodings (consumed == encoded size of the returned value: found and fixed F22, non-minimal variable byte integers); an accepted packet's Remaining Length / property lengths equal what its serialiser emits (under A-LEAF for the per-property loops). NOT decided: re-parse equality, trailing bytes.",
         note=TB + "Assumptions A-MEM (lengths < 2^56) and A-RL (inputs <= 268 435 455 bytes). Audited ledger entries are not re-proved when code near them changes; a new site or a lost mechanical discharge is reported.",
         technique="panic-site enumeration from MIR + linear-inequality / interval discharge (no solver) + audited ledger",
         ref="3/C04, 0.1"),
